@@ -46,21 +46,14 @@ OUTSIDE = [
     "streams with more than MAXP pieces, buffer sizes above MAXSIZE (kernel); lists longer than MAXXS (template level)",
     "templates that raise while rendering (the property speaks about produced text)",
     "buffer sizes <= 1 (enable_buffering documents ValueError)",
-    "switching buffering on/off in the middle of a stream",
-    "encodings that write a byte order mark per encode call (utf-16, utf-32, utf-8-sig): see SUSPECTED_DEFECTS",
+    "chunk sizes after buffering was switched in the middle of a stream (only the concatenation is checked there)",
 ]
 ASSUMPTIONS = [
     "templates are compiled natively at import; only rendering / streaming / dumping runs under tracing",
     "async code is driven with coroutine.send(None) (no awaitable in the data really suspends)",
     "mode B: the real code runs natively on inputs decoded from symbolic selectors; file I/O uses a private temp dir",
 ]
-SUSPECTED_DEFECTS = [
-    "TemplateStream.dump(fp, encoding=E) encodes every piece separately (x.encode(E) for x in self); for encodings whose "
-    "encoder writes a byte order mark per call (utf-16, utf-32, utf-8-sig) the file gets one BOM per piece, including "
-    "one for every empty piece: Template('a{{ x }}b{{ y }}').stream(x='X', y='').dump(BytesIO(), encoding='utf-16') "
-    "writes b'\\xff\\xfea\\x00\\xff\\xfeX\\x00\\xff\\xfeb\\x00\\xff\\xfe', which decodes to 'a\\ufeffX\\ufeffb\\ufeff' "
-    "instead of the rendered text 'aXb' (same for a path target)."
-]
+SUSPECTED_DEFECTS = []  # the per-piece byte order mark of TemplateStream.dump was repaired in /repo; nothing is excluded
 
 # ------------------------------------------------------------------------------------------------ template set
 SOURCES = {
@@ -201,6 +194,39 @@ def chunks_ok(flags: List[bool], size: int) -> bool:
     st.enable_buffering(size)
     st.disable_buffering()
     return (not st.buffered) and list(st) == pieces
+
+
+def toggle_ok(flags: List[bool], size1: int, k: int, size2: int, off: bool, again: bool) -> bool:
+    """
+    pre: len(flags) <= MAXP() and 2 <= size1 <= MAXSIZE() and 2 <= size2 <= MAXSIZE() and 0 <= k <= 3
+    post: _
+    """
+    # buffering switched in the middle: k items taken with buffer size1, then buffering is switched to size2 or off
+    # (optionally after one more item, back to size1); whatever the schedule, the concatenation is the rendered text
+    text = "".join(_gen(flags))
+    st = TemplateStream(_gen(flags))
+    st.enable_buffering(size1)
+    got = []
+    n = 0
+    while n < k:
+        try:
+            got.append(next(st))
+        except StopIteration:
+            return "".join(got) == text
+        n += 1
+    if off:
+        st.disable_buffering()
+    else:
+        st.enable_buffering(size2)
+    if again:
+        try:
+            got.append(next(st))
+        except StopIteration:
+            return "".join(got) == text
+        st.enable_buffering(size1)
+    for c in st:
+        got.append(c)
+    return "".join(got) == text
 
 
 class WText:
@@ -375,12 +401,15 @@ ROWS = [
     {"xs": [0, 0, 0], "f": True, "s": "", "t": "", "e": ""},
     {"xs": [1, -1, 3, 0, 7, 2, 9], "f": False, "s": "s", "t": "tt", "e": ""},
     {"xs": [4, 4, 4, 4, 4, 4, 4, 4, 4, 4, 4], "f": True, "s": "\U0001f600", "t": "Ж", "e": ""},
+    {"xs": [2, 3], "f": True, "s": "日本語です\u304b", "t": "+a\u304b", "e": ""},
 ]
 # (encoding, errors); None = text target
 ENCODINGS = [(None, None), ("utf-8", "strict"), ("utf-16-le", "strict"), ("utf-32-be", "strict"), ("latin-1", "replace"),
              ("ascii", "xmlcharrefreplace"), ("ascii", "ignore"), ("cp1251", "backslashreplace"),
-             ("utf-16", "strict"), ("utf-8-sig", "strict"), ("utf-32", "strict")]
-BOM_FROM = 8  # indexes >= BOM_FROM write a byte order mark per encode call (SUSPECTED_DEFECTS)
+             ("utf-16", "strict"), ("utf-8-sig", "strict"), ("utf-32", "strict"),
+             # stateful encoders: pending input / shift state at the end of the stream
+             ("shift_jisx0213", "replace"), ("iso2022_jp_2004", "replace"), ("utf-7", "strict"), ("euc_jis_2004", "replace")]
+BOM_FROM = 8  # indexes >= BOM_FROM: byte order marks and stateful encoders
 SIZES = [None, 2, 3, 5, 8]
 
 
@@ -414,6 +443,25 @@ def _streams(t, row):
         if size is not None:
             st.enable_buffering(size)
         yield size, st
+
+
+STATEFUL = {"shift_jisx0213", "iso2022_jp_2004", "utf-7", "euc_jis_2004"}
+
+
+def _same_bytes(enc, want):
+    """Stateless encodings: the very bytes of text.encode().  Encodings with shift states have several byte spellings
+    of one text (a piece boundary may close and reopen a shift sequence): there the written bytes must decode to the
+    same text as the one-shot encoding does."""
+    if enc not in STATEFUL:
+        return lambda got: got == want
+    ref = want.decode(enc)
+
+    def same(got):
+        try:
+            return got.decode(enc) == ref
+        except UnicodeDecodeError:
+            return False
+    return same
 
 
 def _files_native(ti, ri, ei):
@@ -466,34 +514,33 @@ def _files_native(ti, ri, ei):
                     return False
         return True
     want = text.encode(enc, errors)
+    same = _same_bytes(enc, want)
     for size, st in _streams(t, row):
         fp = io.BytesIO()
         st.dump(fp, enc, errors)
-        if fp.getvalue() != want:
+        if not same(fp.getvalue()):
             return False
     for size, st in _streams(t, row):
         fp = WText()
         st.dump(fp, encoding=enc, errors=errors)
-        if b"".join(fp.items) != want:
+        if not same(b"".join(fp.items)):
             return False
     for size, st in _streams(t, row):
         st.dump(path, enc, errors)
         with open(path, "rb") as f:
-            if f.read() != want:
+            if not same(f.read()):
                 return False
     for size, st in _streams(t, row):
         with open(path, "wb") as f:
             st.dump(f, enc, errors)
         with open(path, "rb") as f:
-            if f.read() != want:
+            if not same(f.read()):
                 return False
     return True
 
 
 def files_ok(tpl: int, row: int, enc: int) -> bool:
     """
-    The encodings that write a byte order mark per encode call are excluded from the bound (SUSPECTED_DEFECTS).
-
     pre: 0 <= tpl < NTPL() and 0 <= row < NROWS() and 0 <= enc < NENC() and not BOM(enc)
     post: _
     """
@@ -518,6 +565,11 @@ def conditions(tier, seed):
              witnesses=[[[True, False, True, True, False], 2], [[False, False], 3], [[True, True, True, True, False, False], 2],
                         [[], 5], [[False, True, False, True, True], 4]],
              bounds=f"stream of <= {maxp} pieces, each empty or a distinct non-empty marker (symbolic flags); buffer size 2..{maxsize} symbolic"),
+        Cond("kernel_toggle", "toggle_ok", mode="A", param={"maxp": 7 if th else 5, "maxsize": 5 if th else 3}, timeout=to,
+             witnesses=[[[True, True, True, True, True], 2, 1, 3, False, False], [[True, False, True, True, True], 2, 1, 2, True, False],
+                        [[True, True, True], 3, 0, 2, False, True], [[True, True, True, True, True], 2, 2, 3, False, True]],
+             bounds=f"stream of <= {7 if th else 5} pieces (symbolic emptiness flags): buffer size 2..{5 if th else 3}, 0..3 items taken, then buffering switched to another symbolic size or off, "
+                    "optionally one more item and back; concatenation == text"),
         Cond("kernel_dump", "dump_kernel_ok", mode="A", param={"maxp": maxp - 1, "maxsize": maxsize - 2}, timeout=to,
              witnesses=[[[True, False, True, True, False], 2, True], [[False, False], 3, False], [[True, True, True], 2, True], [[], 5, True]],
              bounds=f"stream of <= {maxp - 1} pieces (symbolic emptiness flags), unbuffered or buffered with symbolic size 2..{maxsize - 2}; "
@@ -543,7 +595,7 @@ def conditions(tier, seed):
         out.append(Cond(f"files[{tag}]", "files_ok", mode="B", param={"async": asyncm}, timeout=to,
                         witnesses=[[0, 0, 0], [2, 3, 2], [4, 6, 4], [3, 5, 5], [5, 2, 1], [1, 4, 7]],
                         bounds=f"templates {TNAMES}; {len(ROWS)} data rows (empty outputs, non-ASCII, long lists); encodings/errors "
-                               f"{ENCODINGS[:BOM_FROM]} ({ENCODINGS[BOM_FROM:]} excluded: SUSPECTED_DEFECTS); buffer sizes {SIZES}; "
+                               f"{ENCODINGS} (incl. byte-order-mark and stateful encoders); buffer sizes {SIZES}; "
                                "targets StringIO / BytesIO / write-only object / path / binary file object"
                                + ("; synchronous API of an async environment" if asyncm else "")))
     setup(None)
